@@ -1022,7 +1022,16 @@ impl Xot {
     /// # Ok::<(), xot::Error>(())
     /// ```
     pub fn parse_bytes(&mut self, bytes: &[u8]) -> Result<Node, ParseError> {
-        let xml = decode(bytes, None);
+        let xml = match decode(bytes, None) {
+            Some(xml) => xml,
+            None => {
+                // bytes that are not legal in the encoding
+                return Err(ParseError::XmlParser(
+                    xmlparser::Error::UnknownToken(xmlparser::TextPos::new(1, 1)),
+                    0,
+                ));
+            }
+        };
         // the decoder has taken the byte order mark off: a second one is a
         // character in front of the document, which the tokenizer would
         // skip as if it were the first
